@@ -26,6 +26,11 @@ impl VRequest {
     pub async fn read(&mut self, r: &mut (impl crate::__rt__::AsyncRead + Unpin)) -> Result<Option<()>, Response> {
         self.0.as_mut().read(r).await
     }
+    /// the two calls of the session loop that carry bytes read beyond a request over to the next one
+    pub fn clear_keeping(&mut self, unread: std::ops::Range<usize>) -> usize { unsafe { self.0.as_mut().get_unchecked_mut() }.clear_keeping(unread) }
+    pub async fn read_following(&mut self, r: &mut (impl crate::__rt__::AsyncRead + Unpin), carried: usize) -> Result<Option<std::ops::Range<usize>>, Response> {
+        self.0.as_mut().read_following(r, carried).await
+    }
     pub fn get(&self) -> &Request { &self.0 }
     pub async fn handle(&mut self, router: &VRouter) -> Response {
         router.0.handle(unsafe { self.0.as_mut().get_unchecked_mut() }).await
